@@ -464,14 +464,16 @@ func (r *patchRunner) Apply(filename string, f *ast.File) (fout *ast.File, comme
 			}
 
 			snap = snap.Diff(fout, cl)
-			cleanupFilePos(r.fset.File(fout.Pos()), cl, fout.Comments)
+			fout.Comments = cleanupFilePos(r.fset.File(fout.Pos()), cl, fout.Comments)
 		}
 	}
 
 	return fout, comments, matched
 }
 
-func cleanupFilePos(tfile *token.File, cl engine.Changelog, comments []*ast.CommentGroup) {
+// cleanupFilePos removes the lines and comments of the changed sections from
+// the file and returns the comment groups that still hold comments.
+func cleanupFilePos(tfile *token.File, cl engine.Changelog, comments []*ast.CommentGroup) []*ast.CommentGroup {
 	linesToDelete := make(map[int]struct{})
 	for _, dr := range cl.ChangedIntervals() {
 		if dr.Start == token.NoPos {
@@ -509,4 +511,15 @@ func cleanupFilePos(tfile *token.File, cl engine.Changelog, comments []*ast.Comm
 	for i := len(lines) - 1; i >= 0; i-- {
 		tfile.MergeLine(lines[i])
 	}
+
+	// Drop the groups that lost all their comments: Pos and End of an empty
+	// group are undefined, and code that walks File.Comments (the import
+	// handling of later changes, for one) calls them.
+	remaining := make([]*ast.CommentGroup, 0, len(comments))
+	for _, cg := range comments {
+		if len(cg.List) > 0 {
+			remaining = append(remaining, cg)
+		}
+	}
+	return remaining
 }
